@@ -240,13 +240,13 @@ def cases(tier, seed):
         for lidx, plen in enumerate(LENGTHS):
             out.append(dict(id='roundtrip-%s-%d' % (kind, plen), kind='roundtrip', cose=kind, plen=plen, seed=seed * 211 + idx, reps=4 if thorough else 1))
             idx += 1
-        reps = 24 if thorough else 2
+        reps = 96 if thorough else 2
         for rep in range(reps):
             out.append(dict(id='flips-%s-%d' % (kind, rep), kind='flips', cose=kind, seed=seed * 101 + idx, limit=None if (thorough or rep == 0) else 900))
             out.append(dict(id='fields-%s-%d' % (kind, rep), kind='fields', cose=kind, seed=seed * 103 + idx))
             idx += 1
     for kind in KINDS:
-        for rep in range(6 if thorough else 1):
+        for rep in range(24 if thorough else 1):
             out.append(dict(id='multi-flips-%s-%d' % (kind, rep), kind='flips', cose=kind, seed=seed * 131 + idx, multi=True, limit=None if thorough else 1500))
             out.append(dict(id='multi-fields-%s-%d' % (kind, rep), kind='fields', cose=kind, seed=seed * 137 + idx, multi=True))
             out.append(dict(id='multi-roundtrip-%s-%d' % (kind, rep), kind='roundtrip', cose=kind, plen=rng_len(seed, idx), seed=seed * 139 + idx, reps=1, multi=True))
@@ -254,7 +254,7 @@ def cases(tier, seed):
     out.append(dict(id='recipients', kind='recipients', seed=seed, reps=6 if thorough else 2))
     for kind in KINDS:
         out.append(dict(id='admin-%s' % kind, kind='admin', cose=kind, seed=seed * 149 + idx, reps=8 if thorough else 2))
-    out.append(dict(id='adjacent', kind='adjacent', seed=seed, reps=12 if thorough else 3))
+    out.append(dict(id='adjacent', kind='adjacent', seed=seed, reps=120 if thorough else 3))
     out.append(dict(id='keys', kind='keys', seed=seed))
     return out
 
